@@ -1,0 +1,40 @@
+//go:build verif
+
+package language
+
+// Machine-checked contracts for package language (read by /verif/govc; this
+// file contains comments only and is compiled only with build tag verif).
+//
+//@ // every comment delimiter is a non-empty-or-absent ASCII string, and a
+//@ // language that can open a multi-line comment can also close it
+//@ spec isASCII(s string) bool = forall k int :: 0 <= k && k < len(s) ==> 0 < s[k] && s[k] < 128
+//@
+//@ func (Language).commentStyle
+//@   function styleOf
+//@   modifies nothing
+//@   props C18
+//@ spec styleOf(lang Language) style
+//@
+//@ func (Language).SingleLineCommentStart
+//@   ensures isASCII(result)
+//@   modifies nothing
+//@   props C18
+//@
+//@ func (Language).MultilineCommentStart
+//@   ensures isASCII(result)
+//@   modifies nothing
+//@   props C18
+//@
+//@ func (Language).MultilineCommentEnd
+//@   ensures isASCII(result)
+//@   modifies nothing
+//@   props C18
+//@
+//@ func (Language).QuoteCharacter
+//@   ensures ok ==> (quote == 34 || quote == 39 || quote == 96)
+//@   modifies nothing
+//@   props C18
+//@
+//@ func (Language).NestedComments
+//@   modifies nothing
+//@   props C18
